@@ -119,7 +119,7 @@ OTHER_RULES = ["/* c */", "/**/", "/* a\n   b */", '@import "a.css";', "@import 
                "@page { margin: 1cm; @top-left { content: \"x\" } }", "@page x:left { size: a4 }",
                '@font-face { font-family: "x"; src: url(x) }', "@font-face {}", "@x y;", '@x y "s" 1 (a) [b] {c: d; e {f: g}}',
                "@y;", "a {}", "@media print {}", "@variables { v: 1px }", "@page {}",
-               '@unk { a { b: c } }', "@X-Y 1px;"]
+               '@unk { a { b: c } }', "@X-Y 1px;", "@x 1 + 2;", "@x a > b ~ c u + 0 + .5;", "@x { a + 2 { b: 1 > 2 } }"]
 
 
 # ---- systematic value coverage: every preference row sees every numeric shape and every value kind
@@ -636,7 +636,10 @@ def e2e_check(prep, prefs_dict, minified=False):
     exp = json.loads(json.dumps(filter_model(pd, base)))
     if m1 != exp:
         if _squash(m1) == _squash(exp):
-            return ("fail", "re-parsed model differs only by whitespace inside a token (string, url, unknown rule): "
+            if _no_strings(m1) == _no_strings(exp):
+                return ("fail", "re-parsed model differs only by whitespace inside a token (string, url): "
+                        + first_diff(exp, m1))
+            return ("fail", "re-parsed model differs only by whitespace between tokens (tokens glued or split): "
                     + first_diff(exp, m1))
         return ("fail", "re-parsed model differs: " + first_diff(exp, m1))
     return None
@@ -645,6 +648,11 @@ def e2e_check(prep, prefs_dict, minified=False):
 def e2e_one(text, prefs_dict, minified=False, want_text=False):
     """the property on one (sheet, preferences) pair.  Returns None (holds), ('skip', why) or ('fail', what)."""
     return e2e_check(e2e_prepare(text), prefs_dict, minified)
+
+
+def _no_strings(m):
+    import re
+    return re.sub(r'''(\\"(?:[^"\\]|\\[^"]|\\\\.)*?\\"|'(?:[^'\\]|\\.)*'|url\([^)]*\))''', "<tok>", json.dumps(m))
 
 
 def _squash(m):
@@ -888,6 +896,154 @@ def parse_append_out(line):
     return [[r_str(c) for c in chunks.split(";")] if chunks else [], r_str(val)]
 
 
+# --------------------------------------------------------------------------------------------- token preservation (out_separation on the implementation)
+TOKEN_ITEMS = [("a", "IDENT"), ("b1", "IDENT"), ("-x", "IDENT"), ("and", "IDENT"), ("u", "IDENT"), ("e3", "IDENT"),
+               ("important", "IDENT"), ("1", "NUMBER"), ("+2", "NUMBER"), ("-1", "NUMBER"), (".5", "NUMBER"),
+               ("1.5", "NUMBER"), ("0", "NUMBER"), ("1px", "DIMENSION"), ("50%", "PERCENTAGE"), ("#abc", "HASH"),
+               ("#aabbcc", "HASH"), ("s", "STRING"), ("x y", "STRING"), ("", "STRING"), ("x", "URI"), ("a b", "URI"),
+               ("f(", "FUNCTION"), ("U+0-7F", "UNICODE-RANGE"), ("@x", "ATKEYWORD"), ("~=", "INCLUDES"),
+               ("@media", None), ("red", None), ("x y", None), ("a ", None), ("p|a", None), ("1px", None), ("+", None),
+               ("-", None), ("*", None), ("/", None), (" ", "S")] + \
+              [(c, "CHAR") for c in "+>~,:{;)]/=}([*-.!|#@<%?"]
+
+
+def gen_token_case(rng):
+    pd = {}
+    for n in ("spacer", "listItemSpacer", "propertyNameSpacer", "paranthesisSpacer", "selectorCombinatorSpacer"):
+        pd[n] = rng.choice(WS_VALUES)
+    pd["lineSeparator"] = rng.choice(LINESEP_VALUES)
+    pd["indent"] = rng.choice(INDENT_VALUES)
+    pd["indentClosingBrace"] = rng.random() < 0.5
+    pd["keepComments"] = rng.random() < 0.7
+    pd["minimizeColorHash"] = rng.random() < 0.5
+    items = []
+    for _ in range(rng.randint(2, 6)):
+        r = rng.random()
+        if r < 0.06:
+            items.append(["t", "", "/*c*/", None, "COMMENT", [True, False, False, False]])
+            continue
+        if r < 0.1:
+            items.append(["s", pd["lineSeparator"], None, None, None, [True, False, False, False]])
+            continue
+        v, ty = rng.choice(TOKEN_ITEMS)
+        fl = [rng.random() < 0.85, rng.random() < 0.15, rng.random() < 0.05, rng.random() < 0.08]
+        items.append(["s", v, None, None, ty, fl])
+    return [pd, False, rng.randint(0, 1), False, items]
+
+
+def _toks(text):
+    from css_parser.tokenize2 import Tokenizer
+    return [(t[0], t[1]) for t in Tokenizer().tokenize(text) if t[0] != "S"]
+
+
+def impl_tokens_case(case):
+    """runs the real Out on the case; returns (self.out, value(), tokens of value()) or None when a call raises"""
+    r, convs = impl_append(case)
+    if r[0] == "C":
+        return None, convs
+    try:
+        return [r[0], r[1], _toks(r[1])], convs
+    except Exception as e:  # noqa
+        return ["TOKENIZER", type(e).__name__], convs
+
+
+def token_oracle(case, impl, mline):
+    """None | ('broken', why) | ('fail', why, detail) | ('excused', (left kind, right kind))"""
+    import css_parser  # noqa
+    if mline in ("C", "BAD"):
+        return ("broken", "model raises/BAD where the implementation does not")
+    ws, guards, chunks = mline.split("|", 2)
+    tagged = []
+    for c in (chunks.split(";") if chunks else []):
+        tg, t = c.split(":", 1)
+        tagged.append((None if tg == "-" else int(tg), r_str(t)))
+    if [t for _, t in tagged] != impl[0]:
+        return ("broken", "self.out differs from the model list")
+    if ws != "1":
+        return None
+    guards = guards.split(";")
+    emitted = [i for i, g in enumerate(guards) if g != "s"]
+    pos = {tg: k for k, (tg, _) in enumerate(tagged) if tg is not None}
+    text = {tg: t for tg, t in tagged if tg is not None}
+
+    def guarded(i, j):
+        return guards[i][1] == "1" and guards[j][2] == "1" and j in text and text[j].strip() != ""
+    # (A) the conclusion of out_separation, read off the implementation's list
+    for i, j in zip(emitted, emitted[1:]):
+        if guarded(i, j):
+            if i not in pos or j not in pos:
+                return ("fail", "out_separation: the text of a guarded item is missing from self.out", [i, j])
+            mid = tagged[pos[i] + 1:pos[j]]
+            if any(tg is not None for tg, _ in mid) or any(t.strip(" \t\r\n\f") for _, t in mid) or \
+                    not any(t for _, t in mid):
+                return ("fail", "out_separation: a guarded pair is not separated by whitespace in self.out", [i, j])
+    # (B) token preservation: tokens of value() = the items' own tokens, except at pairs the guards exclude
+    exp = []
+    for i in emitted:
+        if i in text:
+            exp += [(tok, i) for tok in _toks(text[i])]
+    act = impl[2]
+    if [t for t, _ in exp] == act:
+        return None
+    k = 0
+    while k < len(exp) and k < len(act) and exp[k][0] == act[k]:
+        k += 1
+    k = min(k, len(exp) - 1)
+    if k < 0:
+        return ("fail", "token preservation: tokens appear from nowhere", act[:3])
+    i = exp[k][1]
+    e = emitted.index(i)
+    cands = []
+    if e + 1 < len(emitted) and (k + 1 == len(exp) or exp[k + 1][1] != i):
+        cands.append((i, emitted[e + 1]))
+    if e > 0 and (k == 0 or exp[k - 1][1] != i):
+        cands.append((emitted[e - 1], i))
+    if not cands:
+        cands = [(i, emitted[e + 1])] if e + 1 < len(emitted) else [(emitted[e - 1], i)] if e > 0 else []
+    free = [c for c in cands if not guarded(*c)]
+    if not free:
+        return ("fail", "token preservation: the token sequence changes at a pair the guards of out_separation cover",
+                {"pair": cands, "expected": [t for t, _ in exp][:8], "actual": act[:8]})
+    a, b = free[0]
+    items = case[4]
+    return ("excused", why_unguarded(case[0], items[a], items[b], guards[a], guards[b]))
+
+
+def why_unguarded(pd, a, b, ga, gb):
+    """which exclusion of out_separation applies (in the order the guards are written)"""
+    av, aty, afl = a[1] if a[0] == "s" else (a[2] or ""), a[4], a[5]
+    bv, bty, bfl = b[1] if b[0] == "s" else (b[2] or ""), b[4], b[5]
+    if ga[1] != "1":
+        if afl[3] and av in "-+*/":
+            return "left: alwaysS operator (own blank)"
+        if av in "+>~":
+            return "left: one of + > ~ (selectorCombinatorSpacer, may be empty)"
+        if av in (",", ":", "{", ";") or (av == ")" and not afl[1]) or aty == "styletext":
+            return "left: punctuation with its own spacer preference (, : { ; ) styletext)"
+        if av in "}[]()/=":
+            return "left: one of } [ ] ( ) / ="
+        if not afl[0]:
+            return "left: space=False"
+        if aty == "FUNCTION":
+            return "left: FUNCTION"
+        if aty == "STRING" and not pd.get("spacer", " "):
+            return "left: STRING under spacer=''"
+        return "left: other"
+    if bty == "S":
+        return "right: S item (is itself the separator)"
+    if bty == "STRING" and not pd.get("spacer", " "):
+        return "right: STRING under spacer=''"
+    if bty not in ("STRING", "URI", "HASH", "COMMENT") and bv in "+>~,:{;)]/=}" and not bfl[3]:
+        return "right: one of + > ~ , : { ; ) ] / = }"
+    if bv == pd.get("lineSeparator", "\n"):
+        return "right: the line separator"
+    if bv.endswith(" "):
+        return "right: text ends with a space"
+    if not bv.strip():
+        return "right: blank text"
+    return "right: other"
+
+
 # --------------------------------------------------------------------------------------------- skeleton correspondence
 class OutOfScope(Exception):
     pass
@@ -1031,6 +1187,33 @@ def run(ctx):
             ctx.broken("correspondence", "serialize.Out.append/value vs CssV.OutModel.run/value",
                        "%d of %d item sequences differ; first: %s" % (len(a_mism), len(acases), json.dumps(a_mism[0])[:1500]))
 
+    # -- (a') out_separation on the implementation: token preservation of Out.value() under whitespace preferences
+    tcases = [gen_token_case(rng) for _ in range(40000 if thorough else 8000)]
+    tres = ctx.pool_map(impl_tokens_case, tcases, procs=6, chunksize=400)
+    t_ok, t_excused, t_reasons, t_fail = 0, 0, {}, 0
+    if binary:
+        tk = [(c, r) for c, r in zip(tcases, tres) if r[0] is not None and r[0][0] != "TOKENIZER"]
+        for c, r in zip(tcases, tres):
+            if r[0] is not None and r[0][0] == "TOKENIZER":
+                ctx.violation("the tokenizer raises on Out.value()", {"append_case": c})
+        mout = ctx.run_binary(binary, ["G" + append_line(c, r[1])[1:] for c, r in tk], shards=6)
+        for (c, r), mo in zip(tk, mout):
+            v = token_oracle(c, r[0], mo)
+            n_cmp += 1
+            if v is None:
+                t_ok += 1
+            elif v[0] == "excused":
+                t_excused += 1
+                t_reasons[v[1]] = t_reasons.get(v[1], 0) + 1
+            elif v[0] == "broken":
+                ctx.broken("correspondence", "token stream: " + v[1], json.dumps(c)[:800])
+                break
+            else:
+                t_fail += 1
+                if t_fail <= 3:
+                    ctx.violation(v[1], {"append_case": shrink_token_case(c, binary, ctx), "detail": v[2]},
+                                  sig_text=json.dumps(c))
+
     # -- preference rows: presets, pairwise array, random points
     base_rows = [({}, False), ({}, True)]
     arr = pairwise(space, rng)
@@ -1146,7 +1329,10 @@ def run(ctx):
         return None
 
     ctx.finish({
-        "evaluations": evals + len(acases) + s_done,
+        "evaluations": evals + len(acases) + s_done + len(tcases),
+        "token_preservation": {"cases": len(tcases), "tokens_preserved": t_ok, "changed_at_an_excluded_pair": t_excused,
+                               "changed_at_a_guarded_pair": t_fail,
+                               "exclusions_seen": dict(sorted(t_reasons.items(), key=lambda kv: -kv[1]))},
         "distinct_nontrivial": a_nontrivial + s_done + (evals - skipped),
         "rule": "end-to-end: %d preference rows (useDefaults, useMinified, a %d-row pairwise-covering array over all %d "
                 "preferences, random points, every single non-default value) x %d sheets (%d generated over the "
@@ -1168,11 +1354,40 @@ def run(ctx):
     }, assumptions=ASSUME, search=search)
 
 
+def token_verdict(case, binary, ctx):
+    r, convs = impl_tokens_case(case)
+    if r is None or r[0] == "TOKENIZER":
+        return None
+    mo = ctx.run_binary(binary, ["G" + append_line(case, convs)[1:]])[0]
+    return token_oracle(case, r, mo)
+
+
+def shrink_token_case(case, binary, ctx):
+    pd, mini, lvl, keeps, items = case
+
+    def fails(its):
+        if not its:
+            return False
+        v = token_verdict([pd, mini, lvl, keeps, list(its)], binary, ctx)
+        return bool(v) and v[0] == "fail"
+    try:
+        items = shrink_seq(items, fails, max_rounds=20)
+    except Exception:  # noqa
+        pass
+    return [pd, mini, lvl, keeps, list(items)]
+
+
 def replay(ctx, path):
     rep = json.loads(open(path).read())
     bad = 0
     for v in rep.get("violations", []):
         w = v["witness"]
+        if "append_case" in w:
+            binary = ctx.ocaml_build("outmodel")
+            tv = token_verdict(w["append_case"], binary, ctx) if binary else None
+            print("replay item sequence %s -> %s" % (json.dumps(w["append_case"])[:300], tv[1] if tv else "holds"))
+            bad += bool(tv and tv[0] == "fail")
+            continue
         r = e2e_one(w["sheet"], w["prefs"], w.get("minified", False))
         print("replay prefs=%r sheet=%r -> %s" % (w["prefs"], w["sheet"][:200], r[1] if r else "holds"))
         bad += bool(r and r[0] == "fail")
